@@ -67,19 +67,28 @@ def run(ctx):
             ctx.fail("operator raised on transversal operands", desc, got=repr(ex)); continue
         ctx.case("identities", key, nontrivial=impl.kind(I) != "Empty")
         ctx.count("kinds:" + impl.kind(A)[0] + impl.kind(B)[0])
+        # exact Fraction identities are demanded while no coordinate involved has a denominator whose square reaches 10^9 (beyond that every Point2D
+        # operation re-limits denominators - finding K5 - and the statement's own 1e-5 relative tolerance applies, as for float data)
+        dens = gen.maxden([tuple(v) for S_ in (A, B, U, I, D, X) for j in getattr(S_, "jordans", ()) for v in j.vertices])
+        exact = dens * dens < 10 ** 9
+        ctx.count("exact-regime" if exact else "rounded-regime")
+
+        def same(x, y, scale):
+            return x == y if exact else abs(float(x) - float(y)) <= 1e-5 * max(abs(float(scale)), 1e-300)
         for (a, b) in MOMS:
             ma, mb, mu, mi, md, mx, mn = (m(S, a, b) for S in (A0, B0, U, I, D, X, N))
-            ctx.check(m(A, a, b) == ma and m(B, a, b) == mb, "an operator changed a moment of its operand", {**desc, "a": a, "b": b})
+            big = max(abs(ma), abs(mb), abs(mu), abs(mi))
+            ctx.check(same(m(A, a, b), ma, big) and same(m(B, a, b), mb, big), "an operator changed a moment of its operand", {**desc, "a": a, "b": b})
             mo = {"a": a, "b": b}
             ctx.check(all(core.isfrac(v) for v in (ma, mb, mu, mi, md, mx, mn)), "moment is not an exact rational", {**desc, **mo})
-            ctx.check(mu + mi == ma + mb, "m(A|B) + m(A&B) != m(A) + m(B)", {**desc, **mo}, ma + mb, mu + mi)
-            ctx.check(md == ma - mi, "m(A-B) != m(A) - m(A&B)", {**desc, **mo}, ma - mi, md)
-            ctx.check(mx == mu - mi, "m(A^B) != m(A|B) - m(A&B)", {**desc, **mo}, mu - mi, mx)
-            ctx.check(mn == -ma, "m(~A) != -m(A)", {**desc, **mo}, -ma, mn)
+            ctx.check(same(mu + mi, ma + mb, big), "m(A|B) + m(A&B) != m(A) + m(B)", {**desc, **mo}, ma + mb, mu + mi)
+            ctx.check(same(md, ma - mi, big), "m(A-B) != m(A) - m(A&B)", {**desc, **mo}, ma - mi, md)
+            ctx.check(same(mx, mu - mi, big), "m(A^B) != m(A|B) - m(A&B)", {**desc, **mo}, mu - mi, mx)
+            ctx.check(same(mn, -ma, big), "m(~A) != -m(A)", {**desc, **mo}, -ma, mn)
         # conservation certificate (hypothesis of C05.incl_excl_of_cert): pieces(A|B) + pieces(A&B) = pieces(A) + pieces(B) after the in-place split
         cert = pieces(U) + pieces(I) == pieces(A) + pieces(B)
         ctx.count("certificate-holds" if cert else "certificate-fails")
-        if impl.kind(U) not in ("Whole",) and impl.kind(I) not in ("Empty",):
+        if exact and impl.kind(U) not in ("Whole",) and impl.kind(I) not in ("Empty",):
             ctx.check(cert, "boundary pieces of A|B and A&B are not a rearrangement of the operands' pieces", desc)
     # ---- curved pairs: deterministic corpus (1e-5 relative); K3-* entries are catalogued findings
     from harness import curved
